@@ -99,7 +99,7 @@ def gen(chk):
     for kind, (recv, idx, elems) in RECVS.items():
         for add in ADDS:
             for beh in vecs:
-                if kind not in ("arr", "arrnil", "iter") and chk.tier == "quick" and (hash((kind, add, beh)) % 3):
+                if kind not in ("arr", "arrnil", "iter") and chk.tier == "quick" and (dhash((kind, add, beh)) % 3):
                     continue
                 for carg in ("", "[9]"):
                     if carg and kind != "arr":
